@@ -47,11 +47,36 @@ fn exec<P: Px>(c: &RCase, stats: &mut Stats, viols: &mut Vec<Viol>) {
     }
     stats.seen("algorithms", c.alg.short());
     let opts = c.options();
+    // Every fourth Convolution/Interpolation case is judged on a Resizer that has just served the *sibling* algorithm
+    // (Convolution <-> Interpolation, same filter, same geometry): the ideal result does not depend on what the Resizer did
+    // before, so anything it keeps between calls (scratch images - or, in a seeded change, cached coefficients) must not show.
+    let sibling = match c.alg {
+        Alg::Conv(f) if (c.sw + c.sh + c.dw + c.dh) % 4 == 0 => Some(Alg::Interp(f)),
+        Alg::Interp(f) if (c.sw + c.sh + c.dw + c.dh) % 4 == 0 => Some(Alg::Conv(f)),
+        _ => None,
+    };
+    let sibling_opts = sibling.map(|a| {
+        let mut c2 = c.clone();
+        c2.alg = a;
+        c2.options()
+    });
+    if sibling.is_some() {
+        stats.count("judged_after_sibling_algorithm", 1);
+    }
+    let run = |ext: Ext| {
+        if let Some(so) = &sibling_opts {
+            let mut r = resizer(ext);
+            let _ = resize_with(&mut r, &src, c.sw, c.sh, c.dw, c.dh, so);
+            resize_with(&mut r, &src, c.sw, c.sh, c.dw, c.dh, &opts)
+        } else {
+            resize_vec::<P>(&src, c.sw, c.sh, c.dw, c.dh, &opts, ext)
+        }
+    };
     for ext in ALL_EXT {
         #[cfg(fir_verif)]
-        let (res, events) = record(|| resize_vec::<P>(&src, c.sw, c.sh, c.dw, c.dh, &opts, ext));
+        let (res, events) = record(|| run(ext));
         #[cfg(not(fir_verif))]
-        let res = resize_vec::<P>(&src, c.sw, c.sh, c.dw, c.dh, &opts, ext);
+        let res = run(ext);
         #[cfg(fir_verif)]
         {
             if let Some(h) = hook_violation(&events) {
